@@ -48,7 +48,14 @@ pub fn resolve(n: usize, len: usize) -> usize {
     }
 }
 
+const M: usize = usize::MAX;
+/// symbolic names of the extreme sizes of the C16 grid (ALL = usize::MAX is written `a` only in consume positions)
+const BIG: [(&str, usize); 7] = [("Mm2", M - 2), ("Mm1", M - 1), ("Hm1", M / 2 - 1), ("Hh", M / 2), ("Hp1", M / 2 + 1), ("Hp2", M / 2 + 2), ("Mx", M)];
+
 fn num(n: usize) -> String {
+    if let Some((name, _)) = BIG.iter().find(|(_, v)| *v == n && n != ALL) {
+        return name.to_string();
+    }
     if n == ALL {
         "a".into()
     } else if n >= SYM_LEN && n < SYM_LEN + 1024 {
@@ -57,7 +64,17 @@ fn num(n: usize) -> String {
         n.to_string()
     }
 }
+fn size(n: usize) -> String {
+    if n == M {
+        "Mx".into()
+    } else {
+        num(n)
+    }
+}
 fn parse_num(s: &str) -> Result<usize, String> {
+    if let Some((_, v)) = BIG.iter().find(|(name, _)| *name == s) {
+        return Ok(*v);
+    }
     if s == "a" {
         Ok(ALL)
     } else if let Some(r) = s.strip_prefix('L') {
@@ -74,11 +91,11 @@ impl SOp {
             SOp::IdVal => "I".into(),
             SOp::Vals => "V".into(),
             SOp::IdsVals => "W".into(),
-            SOp::Chunk(n, k) => format!("C{}:{}", num(n), num(k)),
-            SOp::Hold(n) => format!("HC{}", num(n)),
+            SOp::Chunk(n, k) => format!("C{}:{}", size(n), num(k)),
+            SOp::Hold(n) => format!("HC{}", size(n)),
             SOp::HeldNext(k) => format!("HN{}", num(k)),
             SOp::HeldDrop => "HD".into(),
-            SOp::BufNew(n) => format!("BN{}", num(n)),
+            SOp::BufNew(n) => format!("BN{}", size(n)),
             SOp::BufNext(k) => format!("BX{}", num(k)),
             SOp::BufDrop => "BD".into(),
             SOp::ForEach(n) => format!("FE{}", num(n)),
